@@ -280,7 +280,43 @@ def run(ctx, only_oracle=False):
     fac2 = res.facet('preprocess')
     cases = list(cases_for(ctx, rng, files))
     lines, meta = [], []
+
+    def flush():
+        if not (ctx.model_ok and not only_oracle) or not lines:
+            del lines[:], meta[:]
+            return
+        out = core.run_driver('drv_c02', lines)
+        for reply, (kind, tname, sec, i, v, real) in zip(out, meta):
+            if kind == 'wv':
+                fac['cases'] += 1
+                if reply.startswith('ok s'):
+                    m = bytes.fromhex(reply[4:]).decode('latin-1')
+                elif reply == 'ok s':
+                    m = ''
+                else:
+                    m = reply
+                    # the model's exception enum is coarser than Python's: OverflowError ~ Exception
+                    if m == 'exc Exception' and real == 'exc OverflowError': m = real
+                if m != real:
+                    fac['disagreements'] += 1
+                    res.disagreements.append(dict(facet='fixed_fields', case={'op': 'write', 'table': tname, 'section': sec, 'field': i, 'value': repr(v)}, model=m, impl=real))
+            elif kind == 'ps':
+                fac['cases'] += 1
+                m = canon_parsed_model(reply)
+                if m != real:
+                    fac['disagreements'] += 1
+                    res.disagreements.append(dict(facet='fixed_fields', case={'op': 'parse', 'table': tname, 'section': sec, 'line': repr(v)}, model=m, impl=real))
+            else:
+                fac2['cases'] += 1
+                m = reply[3:] if reply.startswith('ok ') else reply
+                if m != real:
+                    fac2['disagreements'] += 1
+                    res.disagreements.append(dict(facet='preprocess', case={'table': tname, 'section': sec}, model=m, impl=real))
+        del lines[:], meta[:]
+
     for (tname, sec, i, v) in cases:
+        if len(lines) > 250000:
+            flush()          # bounded memory in the exhaustive tier
         spec, f, g = files[tname]
         names_specs = spec[sec]
         line, viol = oracle_case(f, f, g, tname, sec, names_specs, i, v, res)
@@ -290,6 +326,11 @@ def run(ctx, only_oracle=False):
         res.count('outcome:' + ('raised' if line.startswith('exc ') and len(line) < 40 and not viol and line[4:] in ('ValueError', 'TypeError', 'OverflowError') else 'written'))
         if v is not None:
             res.distinct.add((tname, sec, i, repr(v)))
+        sp_i = names_specs[1][i]
+        if sp_i[-1] in 'ef' and isinstance(v, float) and not (math.isinf(v) or math.isnan(v)):
+            h = res.hyp.setdefault('real written at the field\'s own precision (Written.full) vs reduced/raised', [0, 0])
+            h[1] += 1
+            if len(('%' + sp_i) % v) <= abs(int(sp_i[:-1].partition('.')[0])): h[0] += 1
         vals = [sentinel(s, j) for j, s in enumerate(names_specs[1])]
         vals[i] = v
         try:
@@ -325,34 +366,7 @@ def run(ctx, only_oracle=False):
                         meta.append(('ps', tname, sec, -1, ln, p))
             lines.append('spec %s %s' % (tname, sec))
             meta.append(('spec', tname, sec, -1, None, ' '.join('%d,%d,%s' % (a, b, t) for (a, b), t in f.line_spec[sec])))
-    if ctx.model_ok and not only_oracle:
-        out = core.run_driver('drv_c02', lines)
-        for reply, (kind, tname, sec, i, v, real) in zip(out, meta):
-            if kind == 'wv':
-                fac['cases'] += 1
-                if reply.startswith('ok s'):
-                    m = bytes.fromhex(reply[4:]).decode('latin-1')
-                elif reply == 'ok s':
-                    m = ''
-                else:
-                    m = reply
-                    # the model's exception enum is coarser than Python's: OverflowError ~ Exception
-                    if m == 'exc Exception' and real == 'exc OverflowError': m = real
-                if m != real:
-                    fac['disagreements'] += 1
-                    res.disagreements.append(dict(facet='fixed_fields', case={'op': 'write', 'table': tname, 'section': sec, 'field': i, 'value': repr(v)}, model=m, impl=real))
-            elif kind == 'ps':
-                fac['cases'] += 1
-                m = canon_parsed_model(reply)
-                if m != real:
-                    fac['disagreements'] += 1
-                    res.disagreements.append(dict(facet='fixed_fields', case={'op': 'parse', 'table': tname, 'section': sec, 'line': repr(v)}, model=m, impl=real))
-            else:
-                fac2['cases'] += 1
-                m = reply[3:] if reply.startswith('ok ') else reply
-                if m != real:
-                    fac2['disagreements'] += 1
-                    res.disagreements.append(dict(facet='preprocess', case={'table': tname, 'section': sec}, model=m, impl=real))
+    flush()
     k = max(1, len(cases) // 6)
     for (tname, sec, i, v) in cases[::k]:
         res.sample({'table': tname, 'section': sec, 'field': i, 'value': repr(v)})
